@@ -639,28 +639,67 @@ def edge_texts():
 
 # ---------------------------------------------------------------------------------------------------
 # ljmo / vjmo / tjmo end to end: fonts from tools/fontbuild.py whose three features are single substitutions
-# mapping every jamo glyph to a role-specific glyph (base + J, + 2J, + 3J), so the glyph id out of shape() shows
-# which feature (if any) was applied to which glyph.
+# mapping every jamo glyph to a role-specific glyph, so the glyph id out of shape() shows which feature (if any)
+# was applied to which glyph.  Glyph ids: jamo g in 1..J; role forms g + J (ljmo), g + 2J (vjmo), g + 3J (tjmo);
+# second-level forms x + 6J for x in 1..4J; everything else above 10J.
+# The LAYOUT says how the features reference the lookups — fonts share lookups between features of one stage in every
+# way the map compiler has to merge (a shared lookup acts on a glyph iff ANY of the referencing features is on for it):
+#   own        ljmo -> [L], vjmo -> [V], tjmo -> [T]                       (one lookup per feature)
+#   one        ljmo, vjmo, tjmo -> [A]            A: g -> g + J            (all three share ONE lookup)
+#   pair       ljmo, vjmo -> [A]; tjmo -> [T]                              (two share, one does not)
+#   own+shared ljmo -> [L, S], vjmo -> [V, S], tjmo -> [T, S]   S: x -> x + 6J for x in J+1..4J  (own lookup + shared one)
+#   tjmo+ccmp  ljmo -> [L], vjmo -> [V], tjmo -> [T, S'], ccmp -> [S']   S': x -> x + 6J for x in 1..4J
+#              (a lookup shared by a masked shaper feature and a default-on global feature: ccmp is on everywhere, so S'
+#               acts on every jamo glyph, tagged or not)
 
 ALL_JAMO = (list(range(0x1100, 0x1200)) + list(range(0xA960, 0xA97D)) + list(range(0xD7B0, 0xD7C7))
             + list(range(0xD7CB, 0xD7FC)))
 NJ = len(ALL_JAMO)
+
+
+def _delta_lookup(lo, hi, delta):
+    return {"type": 1, "flag": 0, "subtables": [{"format": 1, "coverage": {"ranges": [(lo, hi)]}, "delta": delta}]}
+
+
+def gsub_layout(layout):
+    """(features, lookups, glyph function (jamo gid, tag 0..3) -> gid) of a layout"""
+    L, V, Tj = (_delta_lookup(1, NJ, k * NJ) for k in (1, 2, 3))
+    if layout == "own":
+        return ([("ljmo", [0]), ("vjmo", [1]), ("tjmo", [2])], [L, V, Tj], lambda g, t: g + t * NJ)
+    if layout == "one":
+        return ([("ljmo", [0]), ("vjmo", [0]), ("tjmo", [0])], [L], lambda g, t: g + (NJ if t else 0))
+    if layout == "pair":
+        return ([("ljmo", [0]), ("vjmo", [0]), ("tjmo", [1])], [L, Tj], lambda g, t: g + (0, NJ, NJ, 3 * NJ)[t])
+    if layout == "own+shared":
+        return ([("ljmo", [0, 3]), ("vjmo", [1, 3]), ("tjmo", [2, 3])], [L, V, Tj, _delta_lookup(NJ + 1, 4 * NJ, 6 * NJ)],
+                lambda g, t: g + t * NJ + (6 * NJ if t else 0))
+    if layout == "tjmo+ccmp":
+        return ([("ccmp", [3]), ("ljmo", [0]), ("vjmo", [1]), ("tjmo", [2, 3])], [L, V, Tj, _delta_lookup(1, 4 * NJ, 6 * NJ)],
+                lambda g, t: g + t * NJ + 6 * NJ)
+    raise ValueError(layout)
+
+
 GSUB_FONTS = {
-    "g-nosyl": (lambda s: False, False),
-    "g-all": (lambda s: True, False),
-    "g-mix3": (lambda s: (s - S_BASE) % 3 == 0, False),
-    "g-lvonly-zt": (lambda s: (s - S_BASE) % T_COUNT == 0, True),
+    "g-nosyl": (lambda s: False, False, "own"),
+    "g-all": (lambda s: True, False, "own"),
+    "g-mix3": (lambda s: (s - S_BASE) % 3 == 0, False, "own"),
+    "g-lvonly-zt": (lambda s: (s - S_BASE) % T_COUNT == 0, True, "own"),
+    "g-nosyl-one": (lambda s: False, False, "one"),
+    "g-mix3-pair": (lambda s: (s - S_BASE) % 3 == 0, False, "pair"),
+    "g-mix7-own+shared": (lambda s: (s - S_BASE) % 7 != 3, False, "own+shared"),
+    "g-nosyl-own+shared": (lambda s: False, False, "own+shared"),
+    "g-lvonly-tjmo+ccmp": (lambda s: (s - S_BASE) % T_COUNT == 0, False, "tjmo+ccmp"),
 }
 
 
 class GsubFont:
     def __init__(self, name):
         import fontbuild
-        syl, zero_tone = GSUB_FONTS[name]
+        syl, zero_tone, layout = GSUB_FONTS[name]
         cmap = {}; g = 1
         for c in ALL_JAMO:
             cmap[c] = g; g += 1
-        g = 1 + 4 * NJ
+        g = 1 + 10 * NJ
         for c in list(range(0x41, 0x5B)) + [DOTTED] + list(TONES):
             cmap[c] = g; g += 1
         for c in range(S_BASE, S_BASE + S_COUNT):
@@ -669,12 +708,12 @@ class GsubFont:
         adv = [600] * g
         if zero_tone:
             for t in TONES: adv[cmap[t]] = 0
+        feats, lookups, self.form = gsub_layout(layout)
         rec = {"num_glyphs": g, "cmap": cmap, "advances": adv,
-               "gsub": {"features": [{"tag": "ljmo", "lookups": [0]}, {"tag": "vjmo", "lookups": [1]},
-                                     {"tag": "tjmo", "lookups": [2]}],
-                        "lookups": [{"type": 1, "flag": 0, "subtables": [
-                            {"format": 1, "coverage": {"ranges": [(1, NJ)]}, "delta": k * NJ}]} for k in (1, 2, 3)]}}
+               "gsub": {"features": [{"tag": t, "lookups": ls} for t, ls in feats], "lookups": lookups}}
         self.name = name
+        self.layout = layout
+        self.features = feats
         self.hex = fontbuild.build(rec).hex()
         self.cmap = cmap
         self.zero_tone = zero_tone
@@ -684,9 +723,9 @@ class GsubFont:
     def gid(self, u): return self.cmap.get(u, 0)
 
     def glyph(self, cp, tag):
-        """what shape() must put out for code point `cp` carrying feature `tag`."""
+        """what shape() must put out for code point `cp` carrying feature `tag` (0 = none, 1/2/3 = ljmo/vjmo/tjmo)."""
         g = self.cmap.get(cp, 0)
-        return g + tag * NJ if (tag and 1 <= g <= NJ) else g
+        return self.form(g, tag) if 1 <= g <= NJ else g
 
 
 def gsub_search(ctx, shim, texts, fonts, levels=(0,)):
@@ -719,7 +758,8 @@ def gsub_search(ctx, shim, texts, fonts, levels=(0,)):
             bad = None
             if got is None: bad = f"reply {out[:80]}"
             elif [g for g, _ in got] != wg:
-                bad = f"glyphs {[g for g, _ in got]} expected {wg} = {[(hex(c), t) for c, t in want]} (jamo glyph + {NJ}*feature)"
+                bad = (f"glyphs {[g for g, _ in got]} expected {wg} = {[(hex(c), t) for c, t in want]} (font layout '{f.layout}': "
+                       f"features → lookups {f.features}; J = {NJ})")
             if bad:
                 fnd = "hangul-LV-T-without-LV-glyph" if text_in_finding_class(cps, f.has) else None
                 kk = "violating" + (":" + fnd if fnd else "")
@@ -728,12 +768,16 @@ def gsub_search(ctx, shim, texts, fonts, levels=(0,)):
                 if key2 in reported: continue
                 reported.add(key2)
                 rp = {"stage": "search", "stream": "gsub-features", "font": f.name, "gsub_font": f.name, "via": "shape()",
-                      "request": ln, "observed": out, "text": fmt(cps)}
+                      "layout": f.layout, "features_to_lookups": f.features, "request": ln, "observed": out,
+                      "expected_glyphs": wg, "text": fmt(cps)}
                 if fnd: rp["finding"] = fnd
                 ctx.violation(f"text {fmt(cps)} on GSUB font '{f.name}' level {level} via shape(): {bad}", rp)
     ctx.note_search("gsub-features", total, total, distribution=dist,
                     rule="shape() on fontbuild fonts whose ljmo/vjmo/tjmo lookups map each jamo glyph g to g+J / g+2J / "
-                         "g+3J: the output glyph ids must be those of spec_render's (code point, feature) sequence; "
+                         "g+3J, in five layouts of features over lookups (one lookup per feature; all three on ONE lookup; two "
+                         "share; own lookup + a lookup shared by all three; a lookup shared by tjmo and the default-on ccmp): "
+                         "the output glyph ids must be those of spec_render's (code point, feature) sequence under the "
+                         "OpenType reading 'a lookup acts on a glyph iff any feature referencing it is on for that glyph'; "
                          "distribution counts the features expected over all requests")
 
 
